@@ -4,7 +4,7 @@
    writes exactly the bytes the loop over the map writes, and ends in an invariant engine state denoting the
    same map.  With C06_replies this gives: bytes on the wire in, bytes on the wire out, records on disk. *)
 From BC Require Import Base.Bytes Resp.Frame Resp.Conn Resp.Handler Resp.HandlerProofs.
-From BC Require Import Store.Codec Store.Engine Store.Log Store.Inv Store.Refine Store.Theorems.
+From BC Require Import Store.Codec Store.Engine Store.Log Store.Inv Store.Refine Store.Merge Store.Theorems.
 From BC Require Store.Crash Store.CrashScript.
 From Coq Require Import ZArith List Lia.
 Import ListNotations.
@@ -189,4 +189,63 @@ Proof.
   - destruct Ho as [<-|[]]. reflexivity.
   - destruct Ho as [<-|[]]. reflexivity.
   - apply in_map_iff in Ho as (k & <- & _). reflexivity.
+Qed.
+
+(* ---- with merge passes of the background task in between ----
+   The background task may run a merge pass between any two commands (the writer mutex serialises them).  Whatever
+   passes run, wherever, in whatever iteration order the index hands out, a connection is answered exactly as
+   without them. *)
+Inductive sev := SFrame (r : rres) | SMerge (ord : list bytes).
+
+Fixpoint frames_of (evs : list sev) : list rres :=
+  match evs with [] => [] | SFrame r :: evs' => r :: frames_of evs' | SMerge _ :: evs' => frames_of evs' end.
+
+Fixpoint handle_bg (c : cfg) (s : st) (evs : list sev) (out : bytes) : bytes * st * term :=
+  match evs with
+  | [] => (out, s, TPanic)
+  | SMerge ord :: evs' => handle_bg c (fst (fst (step c s (OMerge ord)))) evs' out
+  | SFrame (RFrame f) :: evs' =>
+    match cmd_of f with
+    | inr e => (out, s, TCmdErr e)
+    | inl cm =>
+      let '(s', reply) := apply_cmd_e c s cm in
+      match enc reply with
+      | Ok b => handle_bg c s' evs' (out ++ b)
+      | _ => (out, s', TPanic)
+      end
+    end
+  | SFrame RClean :: _ => (out, s, TClosed)
+  | SFrame RReset :: _ => (out, s, TReset)
+  | SFrame (RErr e) :: _ => (out, s, TFrameErr e)
+  | SFrame _ :: _ => (out, s, TPanic)
+  end.
+
+(* every pass is handed an iteration order that visits each index entry of a selected file once *)
+Fixpoint bg_ready (c : cfg) (s : st) (evs : list sev) : Prop :=
+  match evs with
+  | [] => True
+  | SMerge ord :: evs' => merge_ready c s ord /\ bg_ready c (fst (fst (step c s (OMerge ord)))) evs'
+  | SFrame (RFrame f) :: evs' =>
+    match cmd_of f with
+    | inr _ => True
+    | inl cm => bg_ready c (fst (apply_cmd_e c s cm)) evs'
+    end
+  | SFrame _ :: _ => True
+  end.
+
+Theorem handle_bg_sim c : forall evs s m out, denotes s m -> bg_ready c s evs ->
+  let '(o1, s', t1) := handle_bg c s evs out in let '(o2, m', t2) := handle m (frames_of evs) out in
+  o1 = o2 /\ t1 = t2 /\ denotes s' m'.
+Proof.
+  induction evs as [|ev evs IH]; intros s m out Hd Hr; cbn [handle_bg frames_of handle bg_ready] in *; [auto|].
+  destruct ev as [r|ord].
+  - destruct r as [f| | |e| | |]; cbn [handle]; try (split; [reflexivity|split; [reflexivity|exact Hd]]).
+    destruct (cmd_of f) as [cm|e]; [|split; [reflexivity|split; [reflexivity|exact Hd]]].
+    pose proof (apply_sim c s m cm Hd) as H. destruct (apply_cmd_e c s cm) as [s1 f1]. destruct (apply_cmd m cm) as [m1 f2].
+    destruct H as [Hd1 ->]. cbn [fst] in Hr.
+    destruct (enc f2); try (split; [reflexivity|split; [reflexivity|exact Hd1]]). apply IH; assumption.
+  - destruct Hr as [Hm Hr]. destruct Hd as [HI Hab].
+    pose proof (step_refines c s (OMerge ord) HI Hm) as H. destruct (step c s (OMerge ord)) as [[s1 r] t]. cbn [fst] in *.
+    destruct H as (HI1 & _ & Hab1). cbn [spec_step fst] in Hab1. apply IH; [|exact Hr].
+    split; [exact HI1|]. intros k. rewrite Hab, Hab1. reflexivity.
 Qed.
